@@ -9,7 +9,9 @@ the simulated server calls `next` `reads` times (None: to the end) and `close()`
 
     {'k': 'b', 'meth': 'get'|'head', 'tb': 0|1, 'stream': 0|1, 'tools': [...], 'cl': 0|1, 'status': None|n|str,
      'body': {'shape': SHAPE, 'items': 'bbsx', 'end': 0|1, 'close': 'absent'|'ok'|'raise'|'arg'},
-     'tamper': [STATUS_T, HDR_T], 'reads': None|m, 'closes': n}
+     'tamper': [STATUS_T, HDR_T], 'reads': None|m, 'closes': n,
+     'xk': 'ex'|'ir'|'hr'|'he'|'nf' (class of what the failing sites raise: an ordinary Exception, InternalRedirect,
+           HTTPRedirect, HTTPError, NotFound), 'relx': the same for a failing on_end_request hook}
     SHAPE  = bytes | bytes0 | str | str0 | none | nonit | list | tuple | gen | iter | iterable | file
     items  = what successive `__next__` / `read()` calls produce: b bytes chunk, e b'', s a str, i an int, x raise
     end    = 1: at exhaustion an exception instead of StopIteration (iter/iterable), `read()` raises (file)
@@ -72,6 +74,13 @@ class BRun(object):
         self.released = 0
         self.chunk_before_start = False
         self.pages_served = []
+        self.prebuilt = None       # the control-flow exception object of the plan, built while the request is live
+
+    def exc(self, site):
+        """What a failing site of the body iterator raises: the plan's exception kind (`xk`)."""
+        if self.plan.get('xk', 'ex') == 'ex' or self.prebuilt is None:
+            return ProbeError('%s-%s' % (MARK, site))
+        return self.prebuilt
 
 
 _cur = [None]
@@ -103,12 +112,12 @@ def _gen_body(run, items, fin_raises):
     try:
         for k in items:
             if k == 'x':
-                raise ProbeError('%s-gen' % MARK)
+                raise run.exc('gen')
             yield _chunk(k)
     finally:
         run.gen_finally += 1
         if fin_raises and _cur[0] is run:      # (not when the garbage collector closes it after the run)
-            raise ProbeError('%s-finally' % MARK)
+            raise run.exc('finally')
 
 
 class _IterBase(object):
@@ -124,11 +133,11 @@ class _IterBase(object):
             k = self.items[self.pos]
             self.pos += 1
             if k == 'x':
-                raise ProbeError('%s-next' % MARK)
+                raise self.run.exc('next')
             return _chunk(k)
         if self.end:
             self.end = 0
-            raise ProbeError('%s-end' % MARK)
+            raise self.run.exc('end')
         raise StopIteration
 
 
@@ -140,7 +149,7 @@ class IterClose(_IterBase):
     def close(self):
         self.run.inner_close += 1
         if self.close_raises:
-            raise ProbeError('%s-close' % MARK)
+            raise self.run.exc('close')
 
 
 class IterCloseArg(_IterBase):
@@ -171,11 +180,11 @@ class _FileBase(object):
             k = self.items[self.pos]
             self.pos += 1
             if k == 'x':
-                raise ProbeError('%s-read' % MARK)
+                raise self.run.exc('read')
             return _chunk(k)
         if self.end:
             self.end = 0
-            raise ProbeError('%s-end' % MARK)
+            raise self.run.exc('end')
         return b''
 
 
@@ -187,7 +196,7 @@ class FileClose(_FileBase):
     def close(self):
         self.run.file_close += 1
         if self.close_raises and _cur[0] is self.run:      # (file_generator.__del__ may run after the run)
-            raise ProbeError('%s-fclose' % MARK)
+            raise self.run.exc('fclose')
 
 
 def make_body(run, spec):
@@ -256,10 +265,31 @@ EP_CALLABLES = {
 }
 
 
+# exception kinds of the failing sites: an ordinary Exception, and CherryPy's own control-flow classes (what
+# Request.throws / the except clauses of respond() single out); KeyboardInterrupt / SystemExit are excluded by the statement
+XKINDS = ['ex', 'ir', 'hr', 'he', 'nf']
+
+
+def build_exc(kind):
+    if kind == 'ir':
+        return cherrypy.InternalRedirect('/plain')
+    if kind == 'hr':
+        return cherrypy.HTTPRedirect('/elsewhere')
+    if kind == 'he':
+        return cherrypy.HTTPError(404, 'VPMSG-iterator')
+    if kind == 'nf':
+        return cherrypy.NotFound()
+    return None
+
+
 def _released_hook():
     run = _cur[0]
     if run is not None:
         run.released += 1
+        kind = run.plan.get('relx') if run.plan['k'] == 'b' else None
+        if kind and len(run.reqs) and cherrypy.serving.request is run.reqs[0]:
+            # on_end_request of the page's request fails too (release_serving logs and drops it)
+            raise (build_exc(kind) or ProbeError('%s-onendrequest' % MARK))
 
 
 def _cond(cond, run, qs):
@@ -282,6 +312,10 @@ class Root(object):
         plan = run.plan
         run.urls.append((req.path_info, req.query_string))
         if plan['k'] == 'b':
+            if req.path_info != '/b':
+                # the target of an InternalRedirect raised by the body iterator while finalize collapsed it
+                return PAGE_CHUNK
+            run.prebuilt = build_exc(plan.get('xk', 'ex'))
             if plan['status'] is not None:
                 cherrypy.serving.response.status = plan['status']
             if plan['cl']:
@@ -502,6 +536,11 @@ def tok(s):
 def model_comparable(plan):
     """Plans the Lean model covers (the rest is judged by the oracle only)."""
     if plan['k'] == 'b':
+        if plan.get('xk', 'ex') != 'ex' and not ((plan['stream'] or plan['cl']) and plan['status'] is None):
+            # a control-flow exception raised while finalize consumes the body is handled by the request layer
+            # (redirect, 404 page, internal redirect): oracle only.  Raised later (streamed / uncollapsed body:
+            # next, close, finally) its class must make no difference: compared with the kind-free model
+            return False
         return (not plan['tools'] and not plan.get('ep') and (plan['status'] is None or isinstance(plan['status'], int))
                 and plan['tamper'][1] != 'strpair')
     return True
@@ -513,6 +552,8 @@ def plan_line(plan):
         return ' '.join(['B', plan['meth'], str(plan['tb']), str(plan['stream']), str(plan['cl']), opt(plan['status']),
                          b['shape'], tok(b['items']), str(b['end']), b['close'], plan['tamper'][0], plan['tamper'][1],
                          opt(plan['reads']), str(plan['closes'])]
+                        + (['xk=%s' % plan['xk']] if plan.get('xk', 'ex') != 'ex' else [])
+                        + (['relx=%s' % plan['relx']] if plan.get('relx') else [])
                         + (['ep=%s' % plan['ep']] if plan.get('ep') else []) + (['tools=%s' % '+'.join(plan['tools'])] if plan['tools'] else []))
     out = ['R', plan['meth'], str(plan['tb']), tok(plan.get('sn', '')), plan['start'][0], tok(plan['start'][1]),
            opt(plan['reads']), str(plan['closes'])]
@@ -579,12 +620,16 @@ CONSUME = [(None, 1), (None, 2), (None, 0), (0, 1), (0, 2), (1, 1), (1, 2), (2, 
 
 
 def b_plan(shape='bytes', items='', end=0, close='absent', meth='get', tb=0, stream=0, tools=(), cl=0, status=None,
-           tamper=('keep', 'none'), reads=None, closes=1, ep=None):
+           tamper=('keep', 'none'), reads=None, closes=1, ep=None, xk='ex', relx=None):
     pl = {'k': 'b', 'meth': meth, 'tb': tb, 'stream': stream, 'tools': list(tools), 'cl': cl, 'status': status,
           'body': {'shape': shape, 'items': items, 'end': end, 'close': close}, 'tamper': list(tamper),
           'reads': reads, 'closes': closes}
     if ep:
         pl['ep'] = ep       # an error_page.default callable returning str / bytes / an iterator / something else
+    if xk != 'ex':
+        pl['xk'] = xk       # class of the exception the failing sites of the body iterator raise (XKINDS)
+    if relx:
+        pl['relx'] = relx   # the on_end_request hook raises too (an XKINDS class)
     return pl
 
 
@@ -642,6 +687,30 @@ def grid_b_plans(quick):
                 for stream in (0, 1):
                     for tb in (0, 1):
                         plans.append(b_plan(sh, items, 0, close, tamper=(st, hd), stream=stream, tb=tb))
+    # the failing sites of the body iterator (next on the first / a later chunk, exhaustion, close(), finally, read(),
+    # the file's close()) and the on_end_request hook x the class of what they raise: CherryPy's own control-flow
+    # exceptions must be contained like any other once the request layer is done with the response
+    sites = [('gen', 'x', 0, 'ok'), ('gen', 'bx', 0, 'ok'), ('gen', 'bb', 0, 'raise'), ('iter', 'x', 0, 'ok'),
+             ('iter', 'bbx', 0, 'absent'), ('iter', 'b', 1, 'ok'), ('iter', 'bb', 0, 'raise'), ('iterable', 'bx', 0, 'raise'),
+             ('file', 'bx', 0, 'ok'), ('file', 'b', 1, 'ok'), ('file', 'bb', 0, 'raise')]
+    for xk in XKINDS[1:]:
+        for sh, items, end, close in sites:
+            for stream, cl in ((1, 0), (0, 1), (0, 0)):
+                for reads, closes in ((None, 1), (1, 1), (0, 2), (2, 2), (None, 0)):
+                    if not (stream or cl) and (reads, closes) != (None, 1):
+                        continue
+                    for tb in ((0, 1) if reads is None else (0,)):
+                        plans.append(b_plan(sh, items, end, close, stream=stream, cl=cl, tb=tb, reads=reads, closes=closes, xk=xk))
+            plans.append(b_plan(sh, items, end, close, stream=1, meth='head', xk=xk))
+            plans.append(b_plan(sh, items, end, close, stream=1, status=204, xk=xk))
+            for tools in (('encode',), ('gzip',)):
+                plans.append(b_plan(sh, items, end, close, stream=1, tools=tools, xk=xk))
+    for relx in XKINDS:
+        for sh, items, close in (('bytes', '', 'absent'), ('gen', 'bb', 'raise'), ('iter', 'bx', 'raise'), ('str', '', 'absent')):
+            for stream in (0, 1):
+                for reads, closes in ((None, 1), (1, 2), (0, 1)):
+                    plans.append(b_plan(sh, items, 0, close, stream=stream, reads=reads, closes=closes, relx=relx,
+                                        xk=relx if relx != 'ex' else 'ex'))
     # failures answered through an error_page callable of every return type
     for ep in sorted(EP_CALLABLES):
         for sh, items, st in (('str', '', None), ('bytes', '', 99), ('gen', 'bx', None), ('list', 'bs', None)):
@@ -677,7 +746,9 @@ def gen_b_plan(rng):
                   rng.choice(['none', 'bytes', 'strkey', 'strval', 'unival', 'strpair', 'triple', 'nonpair', 'intval', 'nolist']))
     tools = rng.choices([(), ('encode',), ('gzip',), ('encode', 'gzip'), ('etags',)], weights=[60, 15, 10, 8, 7])[0]
     ep = rng.choice(sorted(EP_CALLABLES)) if rng.random() < 0.08 else None
-    return b_plan(sh, items, rng.choice([0, 0, 1]) if sh in ('iter', 'iterable', 'file') else 0, close, ep=ep,
+    xk = rng.choice(XKINDS[1:]) if rng.random() < 0.3 else 'ex'
+    relx = rng.choice(XKINDS) if rng.random() < 0.1 else None
+    return b_plan(sh, items, rng.choice([0, 0, 1]) if sh in ('iter', 'iterable', 'file') else 0, close, ep=ep, xk=xk, relx=relx,
                   meth=rng.choices(['get', 'head'], weights=[85, 15])[0], tb=rng.choice([0, 1]),
                   stream=rng.choice([0, 1, 1]), tools=tools, cl=1 if rng.random() < 0.15 else 0,
                   status=rng.choices([None, 201, 204, 304, 99], weights=[80, 5, 6, 5, 4])[0], tamper=tamper,
@@ -790,10 +861,11 @@ def shrink(plan, still_fails):
     for _ in range(4):
         changed = False
         if cur['k'] == 'b':
-            if cur.get('ep'):
-                cand = copy.deepcopy(cur)
-                del cand['ep']
-                changed |= attempt(cand)
+            for opt_key in ('ep', 'relx'):
+                if cur.get(opt_key):
+                    cand = copy.deepcopy(cur)
+                    del cand[opt_key]
+                    changed |= attempt(cand)
             for key, dflt in (('tools', []), ('cl', 0), ('status', None), ('tamper', ['keep', 'none']), ('meth', 'get'),
                               ('closes', 1), ('reads', None), ('stream', 0)):
                 if cur[key] != dflt:
